@@ -103,7 +103,7 @@ Definition read_entries (s : state) (t : Z) : list entry :=
 Fixpoint insert_entry (e : entry) (l : list entry) : list entry :=
   match l with
   | [] => [e]
-  | x :: r => if e_next e <? e_next x then e :: l else x :: insert_entry e r
+  | x :: r => if e_next e <=? e_next x then e :: l else x :: insert_entry e r
   end.
 Fixpoint sort_entries (l : list entry) : list entry :=
   match l with [] => [] | e :: r => insert_entry e (sort_entries r) end.
